@@ -39,7 +39,7 @@ func checkC06(r *Run) {
 	r4 := r.Rule("R-C06-4", "malformed => link ends with an error: no dropped readPacket/Parse error, default arm rejects, flag/length/QoS/rune checks return the documented sentinels, serve never returns nil")
 	r5 := r.Rule("R-C06-5", "the error becomes observable: reader exit records it before reporting Closed and closing Done()")
 	r1.Floor(30)
-	r4.Floor(20)
+	r4.Floor(12)
 	if c.Method("BaseClient", "serve") == nil {
 		r1.Lost("serve", "not found")
 		return
@@ -132,7 +132,7 @@ func (c *Ctx) tightnessFrom(rr *RuleRep, b *boundsCtx, pktTypes []string) {
 					keep = true
 				}
 				// helpers used by those parsers
-				if t == "pktPublish" && (f.Name() == "unpackString" || f.Name() == "unpackUint16") {
+				if t == "pktPublish" && (f == c.Func("unpackString") || f == c.Func("unpackUint16")) {
 					keep = true
 				}
 			}
@@ -433,10 +433,14 @@ func (w *widthAnalysis) width1(v ssa.Value) int {
 
 func (c *Ctx) rulePanicSources(rr *RuleRep, rs []*ssa.Function) {
 	tableFn := map[string]string{
-		"remainingLength":      "write side: reached from serve only through the 2-byte acknowledgement bodies (pack(type, packUint16(id))); the overflow panic needs a body above 268,435,455 bytes",
-		"appendBytes":          "write side: length-prefix overflow panic concerns application-supplied strings, not peer bytes",
 		"(*pktPublish).Pack":   "write side: invalid-QoS panic concerns application-supplied messages (validated by ValidateMessage), not peer bytes",
 		"(*pktSubscribe).Pack": "write side: invalid-QoS panic concerns application-supplied subscriptions, not peer bytes",
+	}
+	if f := c.Func("remainingLength"); f != nil {
+		tableFn[FuncName(f)] = "write side: reached from serve only through the 2-byte acknowledgement bodies (pack(type, packUint16(id))); the overflow panic needs a body above 268,435,455 bytes"
+	}
+	if f := c.Func("appendBytes"); f != nil {
+		tableFn[FuncName(f)] = "write side: length-prefix overflow panic concerns application-supplied strings, not peer bytes"
 	}
 	// channels that are ever closed
 	closedFields := map[*types.Var]bool{}
@@ -923,7 +927,7 @@ func (c *Ctx) ruleServeNeverNil(rr *RuleRep) {
 		n++
 		ev := c.Resolve(c.errResult(ret))
 		cause := ev
-		if call, callee := c.asCall(ev); call != nil && callee != nil && callee.Pkg == c.Pkg && strings.HasPrefix(callee.Name(), "wrapError") && len(call.Call.Args) > 0 {
+		if call, callee := c.asCall(ev); call != nil && callee != nil && callee.Pkg == c.Pkg && c.isWrapFn(callee) && len(call.Call.Args) > 0 {
 			cause = c.Resolve(call.Call.Args[0])
 		}
 		if isNilConst(ev) || isNilConst(cause) {
